@@ -1,8 +1,12 @@
 package rules
 
 import (
-	"fmt"
+	"go/constant"
+	"go/token"
+	"go/types"
+	"math"
 	"sort"
+	"strings"
 
 	"golang.org/x/tools/go/ssa"
 
@@ -27,48 +31,661 @@ func c01Roots(c *core.Ctx) []*ssa.Function {
 	return roots
 }
 
+// mapLoopTable: the map iterations inside the consensus closure that the syntactic classifier cannot prove order-insensitive,
+// confirmed by reading; value = {count, reason}. A new one (or a higher count) is a violation.
+var mapLoopTable = map[string]struct {
+	n      int
+	reason string
+}{
+	"(*account.Account).IsEmpty":                          {1, "existential test (any non-zero version): the answer does not depend on which key is met first"},
+	"(*account.Manager).Save":                             {1, "each account is saved under its own address into a keyed store; the only early exit is an error that fails the block on every node"},
+	"(*account.StorageCache).Update":                      {1, "every dirty entry is applied to the trie and removed; the resulting root depends on the set only (C17); early exit only on a trie error"},
+	"(*transaction.CandidateVoteEnv).modifyCandidateInfo": {1, "writes candidateProfile[key] for the iteration key only (the classifier sees the inequality tests on the key as early exits)"},
+	"(*store.CandidateCache).GetCandidates":               {1, "feeds refundCandidateDeposit, whose per-address effects commute: balance logs of one address are merged first-old/last-new and all logs are address-sorted afterwards"},
+	"(*store.VoteTop).MergeCandidates":                    {1, "the merged set is re-ranked by the total order (votes, address) over distinct addresses before it is published"},
+	"(*trie.SecureTrie).Commit":                           {1, "writes key preimages into a content-addressed store; not part of any hash"},
+	"account.MergeChangeLogs":                             {1, "per-address independent: merge/removeUnchanged work on the logs of the iteration key only and store the result under that key; the second loop of the function collects and sorts"},
+	"account.NewAccount":                                  {1, "keyed copy of the version records into the account's own map"},
+	"transaction.ChangeVotesByBalance":                    {1, "per-voter additions to the voted candidate: additions commute and VotesLogs of one candidate are merged afterwards (needMerge(VotesLog))"},
+	"transaction.CheckRegisterTxProfile":                  {1, "every early exit is a rejection of the same transaction"},
+	"transaction.getVotesChangesByLogs":                   {1, "writes votesChange[addr] for the iteration key only (the `continue` on equal votes looks like an early exit)"},
+}
+
 func c01(c *core.Ctx) {
-	c.Clause("C01.dbg", "debug")
-	c.Run("dbg", func() {
-		stop := func(fn *ssa.Function) bool {
-			rel := core.RelPkg(fn)
-			return rel == "common/log" || rel == "metrics" || rel == "common/subscribe"
-		}
-		cl := cgClosure(c, c01Roots(c), stop)
-		var fns []*ssa.Function
+	stop := func(fn *ssa.Function) bool {
+		rel := core.RelPkg(fn)
+		return rel == "common/log" || rel == "metrics" || rel == "common/subscribe" || rel == "store" || rel == "store/leveldb" || strings.HasPrefix(rel, "chain/testchain")
+	}
+	var cl map[*ssa.Function]*ssa.Function
+	var fns []*ssa.Function
+	c.Clause("C01.1", "no nondeterminism source reaches a consensus-visible result inside the call-graph closure of execution, finalisation, sealing and hashing: no goroutine or select, no randomness, clock values only into comparisons/logs, map iteration only in order-insensitive forms, node-local store reads only by block hash")
+	c.Run("closure", func() {
+		cl = cgClosure(c, c01Roots(c), stop)
 		for f := range cl {
 			fns = append(fns, f)
 		}
 		sort.Slice(fns, func(i, j int) bool { return fns[i].String() < fns[j].String() })
-		pk := map[string]int{}
-		for _, f := range fns {
-			pk[core.RelPkg(f)]++
+		c.Floor("closure/functions", len(fns), 600)
+		c.Note("consensus closure: %d functions (VTA call graph; boundaries: common/log, metrics, common/subscribe, store, store/leveldb)", len(fns))
+	})
+	if cl == nil {
+		return
+	}
+	inRO := func(fn *ssa.Function) bool {
+		o := core.Outer(fn)
+		if rn := recvNamed(funcObj(o)); rn != nil && rn.Name() == "ReadOnlyManager" {
+			return true
 		}
-		fmt.Println("closure", len(fns), pk)
-		db := c.Named("store/protocol.ChainDB")
-		_ = db
+		return false
+	}
+
+	c.Run("concurrency-and-randomness", func() {
+		nGo, nSel, nRand := 0, 0, 0
 		for _, f := range fns {
-			for _, mr := range mapRangesIn(f) {
-				fmt.Printf("MAP %s form=%q why=%s  via %s\n", shortFn(f), mr.Form, mr.Why, closurePath(cl, f))
-			}
-			for _, ci := range core.AllCalls(f) {
-				if _, isGo := ci.(*ssa.Go); isGo {
-					fmt.Printf("GO %s at %s via %s\n", shortFn(f), c.Pos(ci.Pos()), closurePath(cl, f))
-				}
-				if k := clockOrRandom(ci.Common().StaticCallee()); k != "" {
-					fmt.Printf("SRC %s %s in %s at %s\n", k, ci.Common().StaticCallee().Name(), shortFn(f), c.Pos(ci.Pos()))
-				}
-				if ci.Common().IsInvoke() && namedOfType(ci.Common().Value.Type()) == "ChainDB" {
-					fmt.Printf("DB %s in %s\n", ci.Common().Method.Name(), shortFn(f))
-				}
-			}
 			for _, b := range f.Blocks {
 				for _, in := range b.Instrs {
-					if _, ok := in.(*ssa.Select); ok {
-						fmt.Printf("SELECT %s\n", shortFn(f))
+					switch x := in.(type) {
+					case *ssa.Go:
+						nGo++
+						c.Check("go@"+shortFn(f), "determinism", false, x.Pos(), "goroutine started inside the consensus closure (%s)", closurePath(cl, f))
+					case *ssa.Select:
+						nSel++
+						c.Check("select@"+shortFn(f), "determinism", false, x.Pos(), "select inside the consensus closure (%s)", closurePath(cl, f))
+					case *ssa.Call:
+						if clockOrRandom(x.Call.StaticCallee()) == "random" {
+							nRand++
+							c.Check("random@"+shortFn(f), "determinism", false, x.Pos(), "randomness inside the consensus closure (%s)", closurePath(cl, f))
+						}
 					}
 				}
 			}
 		}
+		c.Check("scan/go-select-random", "determinism", nGo+nSel+nRand == 0, token.NoPos, "%d functions scanned: %d go, %d select, %d random", len(fns), nGo, nSel, nRand)
+		// positive control: the scanner sees the goroutine in the RPC path, which is outside the closure
+		rc := c.Fn("chain/transaction.TxProcessor.ReadContract")
+		seen := false
+		for _, b := range rc.Blocks {
+			for _, in := range b.Instrs {
+				if _, ok := in.(*ssa.Go); ok {
+					seen = true
+				}
+			}
+		}
+		_, inCl := cl[rc]
+		c.Check("control/ReadContract-go-outside-closure", "positive-control", seen && !inCl, rc.Pos(), "ReadContract starts a goroutine (seen=%v) and is not part of the consensus closure (in=%v)", seen, inCl)
 	})
+
+	c.Run("clock", func() {
+		tracer := c.Named("chain/vm.Tracer")
+		isSink := func(ci ssa.CallInstruction) bool {
+			cc := ci.Common()
+			if cc.IsInvoke() {
+				return types.Identical(cc.Value.Type(), tracer)
+			}
+			if sc := cc.StaticCallee(); sc != nil {
+				rel := core.RelPkg(sc)
+				return rel == "common/log" || rel == "metrics"
+			}
+			return false
+		}
+		n := 0
+		for _, f := range fns {
+			for _, ci := range core.AllCalls(f) {
+				if clockOrRandom(ci.Common().StaticCallee()) != "clock" || ci.Value() == nil {
+					continue
+				}
+				n++
+				ok, bad := clockFlow(ci.Value(), isSink, map[ssa.Value]bool{}, 0)
+				where := ""
+				if bad != nil {
+					where = c.Pos(bad.Pos())
+				}
+				c.Check("clock@"+shortFn(f), "determinism", ok, ci.Pos(), "a wall-clock value in %s may only flow into comparisons (the miner's selection), logs, metrics or the tracer; offending use: %s", shortFn(f), where)
+			}
+		}
+		c.Floor("clock/sources", n, 8)
+		// the validator and the box executor never let the clock decide: they pass the largest value as the time budget
+		applyTx := c.Method("chain/transaction.TxProcessor", "applyTx")
+		for _, spec := range []string{"chain/transaction.TxProcessor.Process", "chain/transaction.BoxTxEnv.RunBoxTxs"} {
+			fn := c.Fn(spec)
+			calls := core.CallsIn(fn, applyTx)
+			ok := len(calls) >= 1
+			for _, ci := range calls {
+				a := ci.Common().Args
+				k, isK := a[len(a)-1].(*ssa.Const)
+				if !isK || k.Value == nil {
+					ok = false
+					continue
+				}
+				v, exact := constant.Int64Val(constant.ToInt(k.Value))
+				if !exact || v != math.MaxInt64 {
+					ok = false
+				}
+			}
+			c.Check("time-budget/"+shortFn(fn), "determinism", ok, fn.Pos(), "%s executes transactions with an unlimited time budget (constant MaxInt64), so an included transaction's result never depends on the clock", shortFn(fn))
+		}
+	})
+
+	c.Run("map-iteration", func() {
+		perFn := map[string]int{}
+		var order []string
+		total := 0
+		for _, f := range fns {
+			for _, mr := range mapRangesIn(f) {
+				total++
+				if mr.Form != "" {
+					continue
+				}
+				if ok := collectThenSort(mr.Range); ok {
+					continue
+				}
+				name := shortFn(f)
+				if perFn[name] == 0 {
+					order = append(order, name)
+				}
+				perFn[name]++
+			}
+		}
+		c.Floor("map-iteration/loops-in-closure", total, 15)
+		for _, name := range order {
+			e, listed := mapLoopTable[name]
+			c.Check("map-order@"+name, "determinism", listed && perFn[name] <= e.n, token.NoPos, "%d map iteration(s) in %s are not in an order-insensitive form (keyed copy, commutative accumulation, collect-then-sort); listed=%v: %s", perFn[name], name, listed, e.reason)
+		}
+		// the two sorts the property names must be found by the collect-then-sort form
+		for _, spec := range []string{"chain/account.Manager.Finalise", "chain/account.MergeChangeLogs", "chain/types.Profile.EncodeRLP"} {
+			fn := c.Fn(spec)
+			ok := false
+			for _, mr := range mapRangesIn(fn) {
+				if collectThenSort(mr.Range) {
+					ok = true
+				}
+			}
+			c.Check("collect-then-sort@"+shortFn(fn), "determinism", ok, fn.Pos(), "%s iterates a map only to collect its keys and sorts them before any other use", shortFn(fn))
+		}
+	})
+
+	c.Run("node-local-reads", func() {
+		db := c.Named("store/protocol.ChainDB")
+		dbi := db.Underlying().(*types.Interface)
+		hashKeyed := map[string]string{
+			"GetBlockByHash": "by hash", "GetActDatabase": "by block hash", "GetTrieDatabase": "content-addressed store", "GetContractCode": "by code hash",
+			"SetContractCode": "by code hash", "GetUnConfirmByHeight": "by height on the branch of a named leaf", "GetCandidatesTop": "by block hash",
+			"CandidatesRanking": "by block hash", "SetBlock": "by hash",
+		}
+		siteOK := map[string]string{
+			"GetBlockByHeight@(*chain.BlockChain).GetParentByHeight": "only for heights at or below the stable block, which is an ancestor of every live block",
+			"LoadLatestBlock@(*consensus.StableManager).StableBlock": "read by GetParentByHeight only to choose between the by-height index and the branch walk, which return the same ancestor (callers checked below)",
+		}
+		n := 0
+		for _, f := range fns {
+			if inRO(f) {
+				continue
+			}
+			for _, ci := range core.AllCalls(f) {
+				o := core.CalleeObj(ci)
+				if o == nil {
+					continue
+				}
+				// a call on the chain database: interface method of ChainDB or of an interface that ChainDatabase satisfies with that method
+				isDB := false
+				for i := 0; i < dbi.NumMethods(); i++ {
+					if core.SameFamily(o, dbi.Method(i)) && (ci.Common().IsInvoke() || recvNamed(o) != nil && recvNamed(o).Name() == "ChainDatabase") {
+						isDB = true
+					}
+				}
+				if !isDB {
+					continue
+				}
+				n++
+				key := o.Name() + "@" + shortFn(f)
+				if _, ok := hashKeyed[o.Name()]; ok {
+					c.CheckTrivial("db/"+key, "node-local-read", true, ci.Pos(), "%s: %s", o.Name(), hashKeyed[o.Name()])
+					continue
+				}
+				if why, ok := siteOK[key]; ok {
+					c.CheckTrivial("db/"+key, "node-local-read", true, ci.Pos(), "allowed at this site: %s", why)
+					continue
+				}
+				c.Check("db/"+key, "node-local-read", false, ci.Pos(), "%s reads the chain database by %s, which is not keyed by a block or content hash: the result depends on the node's stable pointer (%s)", shortFn(f), o.Name(), closurePath(cl, f))
+			}
+		}
+		c.Floor("db-calls-in-closure", n, 10)
+		// premise of the StableBlock exemption: inside the closure the stable block is consulted by GetParentByHeight only
+		sb := []*types.Func{c.Method("chain.BlockChain", "StableBlock"), c.Method("chain/consensus.DPoVP", "StableBlock"), c.Method("chain/consensus.StableManager", "StableBlock")}
+		for _, f := range fns {
+			for _, ci := range core.CallsIn(f, sb...) {
+				nm := shortFn(f)
+				okc := nm == "(*chain.BlockChain).GetParentByHeight" || nm == "(*chain.BlockChain).StableBlock" || nm == "(*consensus.DPoVP).StableBlock"
+				c.Check("stable-pointer-read@"+nm, "node-local-read", okc, ci.Pos(), "%s consults the node's stable block inside the consensus closure", nm)
+			}
+		}
+		// the read-only manager (stable-only views for RPC) is created outside the consensus packages
+		names, _ := callersOf(c, c.FuncObj("chain/account.NewReadOnlyManager"))
+		ok := len(names) > 0
+		for _, nme := range names {
+			if !(strings.HasPrefix(nme, "main/") || strings.Contains(nme, "ReadContract") || strings.HasPrefix(nme, "(*main/")) {
+				ok = false
+			}
+		}
+		c.Check("ReadOnlyManager:only-for-queries", "who-may-call", ok, token.NoPos, "NewReadOnlyManager callers: %v", names)
+	})
+
+	c.Clause("C01.2", "miner and validator share one transition: both reach the same applyTx, Finalize and Seal; Finalize runs the votes-by-balance pass, then MergeChangeLogs, then Finalise")
+	c.Run("shared-transition", func() {
+		const cons = "chain/consensus"
+		applyTx := c.Method("chain/transaction.TxProcessor", "applyTx")
+		for _, spec := range []string{"chain/transaction.TxProcessor.Process", "chain/transaction.TxProcessor.ApplyTxs"} {
+			fn := c.Fn(spec)
+			c.Check(shortFn(fn)+"→applyTx", "must-call", len(core.CallsIn(fn, applyTx)) == 1, fn.Pos(), "%s executes transactions through the one applyTx", shortFn(fn))
+		}
+		fin, seal := c.Method(cons+".BlockAssembler", "Finalize"), c.Method(cons+".BlockAssembler", "Seal")
+		prod := c.Method("chain/account.Manager", "GetTxsProduct")
+		for _, pr := range [][2]string{{cons + ".BlockAssembler.RunBlock", "Process"}, {cons + ".BlockAssembler.MineBlock", "ApplyTxs"}} {
+			fn := c.Fn(pr[0])
+			ex := c.Method("chain/transaction.TxProcessor", pr[1])
+			a, b, s, p := core.CallsIn(fn, ex), core.CallsIn(fn, fin), core.CallsIn(fn, seal), core.CallsIn(fn, prod)
+			ok := len(a) == 1 && len(b) == 1 && len(s) == 1 && len(p) == 1
+			if ok {
+				ok = core.Dominates(a[0], b[0]) && core.Dominates(b[0], p[0]) && core.Dominates(p[0], s[0])
+				// Seal gets the product of exactly these transactions and this gas
+				sa := s[0].Common().Args
+				ok = ok && core.Slice(sa[2])[p[0].Value()]
+				pa := p[0].Common().Args
+				gas := core.ResultValues(a[0])
+				ok = ok && gas[len(gas)-1-boolToInt(pr[1] == "Process")] != nil
+				_ = pa
+			}
+			c.Check(shortFn(fn)+":execute≺Finalize≺GetTxsProduct≺Seal", "order", ok, fn.Pos(), "%s runs %s, then Finalize, then seals the product", shortFn(fn), pr[1])
+		}
+		f := c.Fn(cons + ".BlockAssembler.Finalize")
+		cv := core.CallsIn(f, c.FuncObj("chain/transaction.ChangeVotesByBalance"))
+		mg := core.CallsIn(f, c.Method("chain/account.Manager", "MergeChangeLogs"))
+		fi := core.CallsIn(f, c.Method("chain/account.Manager", "Finalise"))
+		ok := len(cv) == 1 && len(mg) == 1 && len(fi) == 1 && core.Dominates(cv[0], mg[0]) && core.Dominates(mg[0], fi[0])
+		c.Check("Finalize:ChangeVotesByBalance≺MergeChangeLogs≺Finalise", "order", ok, f.Pos(), "the votes pass runs before the logs are merged and the merged logs are final before versions are assigned")
+		if len(fi) == 1 {
+			h, why := core.CallHeeded(fi[0], core.ErrNonNil, nil)
+			c.Check("Finalize→Finalise", "heeded-guard", h, fi[0].Pos(), "a failing Finalise fails Finalize: %s", orOK(why))
+		}
+	})
+
+	c.Clause("C01.3", "the transaction-type tables agree: dispatcher, gas table, data check and recipient check are each exhaustive over the 11 tx types and end in a rejecting default")
+	c.Run("tx-type-tables", func() {
+		// the tx type constants: untyped/uint16 constants of package params whose names end in Tx and that the dispatcher switches on
+		handle := c.Fn("chain/transaction.TxProcessor.handleTx")
+		base := switchConsts(c, handle)
+		c.Floor("tx-types-in-dispatcher", len(base), 11)
+		for _, spec := range []string{"chain/transaction.getTxBaseSpendGas", "chain/types.checkTxData", "chain/types.IsToExist"} {
+			fn := c.Fn(spec)
+			got := switchConsts(c, fn)
+			var missing []string
+			for k := range base {
+				if !got[k] {
+					missing = append(missing, k)
+				}
+			}
+			sort.Strings(missing)
+			c.Check("table/"+shortFn(fn), "registry", len(missing) == 0, fn.Pos(), "%s handles every tx type the dispatcher handles; missing: %v", shortFn(fn), missing)
+		}
+	})
+
+	c.Clause("C01.4", "published versions do not remember discarded work: Finalise numbers each log from the parent's record plus one, never from the provisional counter that reverted transactions influence")
+	c.Run("versions", func() {
+		uv := c.Fn("chain/account.Manager.updateVersion")
+		verF := c.FieldVar("chain/types.ChangeLog", "Version")
+		getV := c.Method("chain/account.Account", "GetVersion")
+		prov := c.FieldVar("chain/account.Account", "newestRecords")
+		n := 0
+		ok := true
+		for _, b := range uv.Blocks {
+			for _, in := range b.Instrs {
+				st, isSt := in.(*ssa.Store)
+				if !isSt || core.FieldOf(st.Addr) != verF {
+					continue
+				}
+				n++
+				sl := core.Slice(st.Val)
+				if !core.SliceHasCall(sl, getV) && !core.SliceHasCall(sl, c.Method("chain/types.AccountAccessor", "GetVersion")) {
+					ok = false
+				}
+				if core.SliceHasField(sl, prov) || core.SliceHasCall(sl, c.Method("chain/account.Account", "GetNextVersion")) {
+					ok = false
+				}
+			}
+		}
+		c.Check("updateVersion:Version←GetVersion+1", "value-flow", ok && n >= 1, uv.Pos(), "the %d stores into ChangeLog.Version derive from the parent's record (GetVersion), not from the provisional counter", n)
+		fin := c.Fn("chain/account.Manager.Finalise")
+		c.Check("Finalise→updateVersion", "must-call", len(core.CallsInDeep(fin, c.Method("chain/account.Manager", "updateVersion"))) >= 1, fin.Pos(), "Finalise renumbers the versions of every account that has logs")
+	})
+
+	c.Clause("C01.5", "the validator aborts on the first bad transaction and on a gas mismatch; the miner reverts and skips")
+	c.Run("abort-vs-skip", func() {
+		p := c.Fn("chain/transaction.TxProcessor.Process")
+		applyTx := c.Method("chain/transaction.TxProcessor", "applyTx")
+		for _, g := range core.CallsIn(p, applyTx) {
+			ev := core.ErrResult(g)
+			ok := false
+			for _, t := range core.TestsOf(ev, core.ErrNonNil) {
+				all, any := true, false
+				for _, r := range core.Returns(p) {
+					if t.Fail == r.Block() || core.CanReach(t.Fail, r.Block(), g.Block()) {
+						any = true
+						if core.ClassifyReturn(r, core.Derived(ev), nil) != core.RetFailure {
+							all = false
+						}
+					}
+				}
+				if core.CanReach(t.Fail, g.Block()) {
+					all = false
+				}
+				if all && any {
+					ok = true
+				}
+			}
+			c.Check("Process:applyTx-error-aborts", "heeded-guard", ok, g.Pos(), "a transaction that cannot be applied makes Process return an error (the block is rejected) instead of continuing")
+		}
+		gu := c.Method("chain/types.Transaction", "GasUsed")
+		found := false
+		for _, cg := range core.CondGuards(p, nil) {
+			if core.SliceHasCall(cg.Slice, gu) && core.SliceHasCall(cg.Slice, applyTx) {
+				found = true
+			}
+		}
+		c.Check("Process?tx.GasUsed≠gas", "quantity-guard", found, p.Pos(), "the gas the block claims for a transaction is compared with the gas its execution used, and a mismatch rejects")
+	})
+
+	c.NotDecidedf("that two executions produce equal hashes and equal account state (a value property); EVM arithmetic; nondeterminism hidden in cgo (secp256k1) or goleveldb; order-insensitivity of the table-listed loops is confirmed by reading, not proved")
+}
+
+func boolToInt(b bool) int {
+	if b {
+		return 0
+	}
+	return 0
+}
+
+func funcObj(fn *ssa.Function) *types.Func {
+	if o, ok := fn.Object().(*types.Func); ok {
+		return o
+	}
+	return nil
+}
+
+// clockFlow: the value is consumed only by comparisons, sinks, arithmetic feeding those, or parameters of repository functions that obey
+// the same rule.
+func clockFlow(v ssa.Value, sink func(ssa.CallInstruction) bool, seen map[ssa.Value]bool, depth int) (bool, ssa.Instruction) {
+	if seen[v] || depth > 12 {
+		return true, nil
+	}
+	seen[v] = true
+	if v.Referrers() == nil {
+		return true, nil
+	}
+	for _, r := range *v.Referrers() {
+		switch x := r.(type) {
+		case *ssa.DebugRef:
+		case *ssa.BinOp:
+			switch x.Op {
+			case token.LSS, token.LEQ, token.GTR, token.GEQ, token.EQL, token.NEQ:
+				// a comparison: its outcome steers the miner's selection only
+			default:
+				if ok, bad := clockFlow(x, sink, seen, depth+1); !ok {
+					return false, bad
+				}
+			}
+		case *ssa.Convert, *ssa.ChangeType, *ssa.MakeInterface, *ssa.Phi, *ssa.UnOp:
+			if ok, bad := clockFlow(x.(ssa.Value), sink, seen, depth+1); !ok {
+				return false, bad
+			}
+		case *ssa.Store:
+			if x.Val != v {
+				return false, x
+			}
+			// a local cell (also the varargs array of a log call): follow its readers
+			root := x.Addr
+			for {
+				if ia, ok := root.(*ssa.IndexAddr); ok {
+					root = ia.X
+					continue
+				}
+				break
+			}
+			al, ok := root.(*ssa.Alloc)
+			if !ok {
+				return false, x
+			}
+			if ok2, bad := cellFlow(al, sink, seen, depth+1); !ok2 {
+				return false, bad
+			}
+		case ssa.CallInstruction:
+			if sink(x) {
+				continue
+			}
+			sc := x.Common().StaticCallee()
+			if sc != nil && sc.Pkg != nil && sc.Pkg.Pkg.Path() == "time" {
+				if val := x.Value(); val != nil {
+					if ok, bad := clockFlow(val, sink, seen, depth+1); !ok {
+						return false, bad
+					}
+				}
+				continue
+			}
+			if sc != nil && core.InRepo(sc) && sc.Blocks != nil {
+				args := x.Common().Args
+				okAll := true
+				for i, a := range args {
+					if a == v && i < len(sc.Params) {
+						if ok, bad := clockFlow(sc.Params[i], sink, seen, depth+1); !ok {
+							return false, bad
+						}
+					}
+				}
+				if okAll {
+					continue
+				}
+			}
+			return false, x
+		default:
+			return false, r
+		}
+	}
+	return true, nil
+}
+
+func cellFlow(al *ssa.Alloc, sink func(ssa.CallInstruction) bool, seen map[ssa.Value]bool, depth int) (bool, ssa.Instruction) {
+	if al.Referrers() == nil {
+		return true, nil
+	}
+	for _, r := range *al.Referrers() {
+		switch x := r.(type) {
+		case *ssa.Store, *ssa.DebugRef:
+		case *ssa.UnOp:
+			if ok, bad := clockFlow(x, sink, seen, depth+1); !ok {
+				return false, bad
+			}
+		case *ssa.IndexAddr:
+			// element of a varargs array: stores are the fill, loads do not occur
+		case *ssa.Slice:
+			if ok, bad := clockFlow(x, sink, seen, depth+1); !ok {
+				return false, bad
+			}
+		case *ssa.MakeClosure:
+			// captured variable: conservatively follow loads inside the closure
+			if cf, ok := x.Fn.(*ssa.Function); ok {
+				for i, b := range x.Bindings {
+					if b == ssa.Value(al) && i < len(cf.FreeVars) && cf.FreeVars[i].Referrers() != nil {
+						for _, u := range *cf.FreeVars[i].Referrers() {
+							if ld, ok := u.(*ssa.UnOp); ok {
+								if ok2, bad := clockFlow(ld, sink, seen, depth+1); !ok2 {
+									return false, bad
+								}
+							}
+						}
+					}
+				}
+			}
+		default:
+			return false, r
+		}
+	}
+	return true, nil
+}
+
+// collectThenSort: the map loop only appends to one slice carried across iterations, and after the loop that slice is handed to a
+// function of package sort before any other use.
+func collectThenSort(rg *ssa.Range) bool {
+	var next *ssa.Next
+	if rg.Referrers() == nil {
+		return false
+	}
+	for _, r := range *rg.Referrers() {
+		if n, ok := r.(*ssa.Next); ok {
+			if next != nil {
+				return false
+			}
+			next = n
+		}
+	}
+	if next == nil {
+		return false
+	}
+	body, header := core.LoopOf(next.Block())
+	if body == nil || header != next.Block() {
+		return false
+	}
+	for b := range body {
+		if b == header {
+			continue
+		}
+		for _, s := range b.Succs {
+			if !body[s] {
+				return false
+			}
+		}
+	}
+	var carried *ssa.Phi
+	for b := range body {
+		for _, in := range b.Instrs {
+			switch x := in.(type) {
+			case *ssa.Phi:
+				if b == header {
+					if carried != nil {
+						return false
+					}
+					carried = x
+				}
+			case *ssa.Store:
+				// only the varargs slot of append (a fresh local array) may be written
+				root := x.Addr
+				for {
+					if ia, ok := root.(*ssa.IndexAddr); ok {
+						root = ia.X
+						continue
+					}
+					break
+				}
+				if _, ok := root.(*ssa.Alloc); !ok {
+					return false
+				}
+			case *ssa.MapUpdate, *ssa.Send, *ssa.Go, *ssa.Defer, *ssa.Return, *ssa.Panic:
+				return false
+			case ssa.CallInstruction:
+				if bi, ok := x.Common().Value.(*ssa.Builtin); ok && (bi.Name() == "append" || bi.Name() == "len") {
+					continue
+				}
+				return false
+			}
+		}
+	}
+	if carried == nil || carried.Referrers() == nil {
+		return false
+	}
+	if _, isSlice := carried.Type().Underlying().(*types.Slice); !isSlice {
+		return false
+	}
+	// uses after the loop
+	var sortCall ssa.CallInstruction
+	var after []ssa.Instruction
+	var feeds func(v ssa.Value, d int)
+	feeding := map[ssa.Instruction]bool{}
+	feeds = func(v ssa.Value, d int) {
+		if v.Referrers() == nil || d > 4 {
+			return
+		}
+		for _, r := range *v.Referrers() {
+			if body[r.Block()] {
+				continue
+			}
+			switch x := r.(type) {
+			case *ssa.DebugRef:
+			case *ssa.ChangeType:
+				feeding[x] = true
+				feeds(x, d+1)
+			case *ssa.MakeInterface:
+				feeding[x] = true
+				feeds(x, d+1)
+			case *ssa.Convert:
+				feeding[x] = true
+				feeds(x, d+1)
+			case ssa.CallInstruction:
+				if sc := x.Common().StaticCallee(); sc != nil && sc.Pkg != nil && sc.Pkg.Pkg.Path() == "sort" && sortCall == nil {
+					sortCall = x
+					feeding[x] = true
+					continue
+				}
+				after = append(after, r)
+			default:
+				after = append(after, r)
+			}
+		}
+	}
+	feeds(carried, 0)
+	if sortCall == nil {
+		return false
+	}
+	for _, u := range after {
+		if feeding[u] {
+			continue
+		}
+		if !core.Dominates(sortCall, u) {
+			return false
+		}
+	}
+	return true
+}
+
+// switchConsts returns the constant case values (by constant name where known, else by value) of the switch statements of fn.
+func switchConsts(c *core.Ctx, fn *ssa.Function) map[string]bool {
+	out := map[string]bool{}
+	// in SSA a switch over constants is a chain of `x == K` tests on one value; collect K for the most-compared value
+	byVal := map[ssa.Value]map[string]bool{}
+	for _, b := range fn.Blocks {
+		for _, in := range b.Instrs {
+			bo, ok := in.(*ssa.BinOp)
+			if !ok || bo.Op != token.EQL {
+				continue
+			}
+			k, isK := bo.Y.(*ssa.Const)
+			x := bo.X
+			if !isK {
+				k, isK = bo.X.(*ssa.Const)
+				x = bo.Y
+			}
+			if !isK || k.Value == nil || k.Value.Kind() != constant.Int {
+				continue
+			}
+			if byVal[x] == nil {
+				byVal[x] = map[string]bool{}
+			}
+			byVal[x][k.Value.ExactString()] = true
+		}
+	}
+	best := 0
+	for _, m := range byVal {
+		if len(m) > best {
+			best = len(m)
+			out = m
+		}
+	}
+	return out
 }
